@@ -80,7 +80,7 @@ class StateTracker:
             if date > end:
                 break
             date_diff = self.simulation.nodes[1].increment_time(date, -max(prev_date, start))
-            if start < date < end:
+            if start < date <= end:
                 if prev_state not in steady_state_dictionary:
                     steady_state_dictionary[prev_state] = date_diff
                 else:
